@@ -19,15 +19,37 @@ Flow (DESIGN.md section 5 C01, Appendix G):
         the emitted trees),
       - records size / order / domain / number of obligations per case.
  3. TLC (spec/OneDAudit.tla) judges the recorded integer/boolean observables against the
-    catalogue, case by case (nothing skipped, sizes, order, domain).
+    catalogue, case by case (nothing skipped, sizes, order, domain, number of obligations, of
+    obligations passed through OneDGrid.integrate, of call forms replayed), and what the harness
+    read off the library's signatures: every OneDGrid subclass of grid.onedgrid is in the
+    catalogue, every declared default of an optional parameter is an admissible value.
+
+Dimensions added by the audit of the check (OneD.tla section 7b, MC_OneD.tla):
+  * n = 1 (smallest admissible size of GaussChebyshevType2 / TrefethenGC2 / TrefethenStripGC2
+    and of the exp-sinh family) is in both tiers;
+  * the fixed parameter lattices contain the declared defaults; in addition VERIF_SEED draws
+    values from pools written in MC_OneD.tla (alpha in [-4/5, 8], step in [1/40, 3/2], rho in
+    [21/20, 10], one more size: quick 14..49, thorough 257..383) - the harness only writes the
+    indices (generated module OneDSeed);
+  * every exactness obligation is evaluated a second time through OneDGrid.integrate (one array,
+    two arrays, and the same array twice for the norms of the orthonormal families);
+  * call forms: the same request spelled positionally / by keywords / with the optional
+    parameter omitted / with n as np.int64, np.int32, np.uint64 / with the parameter as int,
+    np.int64, np.float64, 0-d array / once more after the arrays of the first result were
+    overwritten in place.  A form must return the grid of the reference request bit for bit;
+    if it does not it is judged on its own against the definition and the exactness obligations
+    (so a harmless rounding difference is no violation).  Forms are replayed for n <= 16 and
+    n mod 32 in {0, 31};
+  * more base rules for the *General classes (Simpson: odd n only; thorough also
+    ClenshawCurtis, MidPoint, GaussChebyshev, RectangleRuleSineEndPoints).
 
 Tolerances (calibrated on the pinned tree, see CALIBRATION below):
   exactness obligations (orthonormal scale)   |sum - expected| <= 1e-9
   nodes vs definition                         <= max(1e-9 |x|, 1e-12)
   weights vs definition                       <= max(1e-8 |w|, 64 eps * mag)   (mag = largest
                                                  intermediate term of the definition tree)
-CALIBRATION (thorough tier: n = 2..100, 127, 128, 255, 256; the check is deterministic,
-VERIF_SEED is not used):
+CALIBRATION (thorough tier: n = 1..100, 127, 128, 255, 256 + one drawn size; the check is
+deterministic given VERIF_SEED):
   largest exactness residual of a sound rule   8.8e-14 (GaussLegendre), 5.9e-14 (GaussChebyshev),
                                                2e-14 (GaussLaguerre, n <= 64, six alphas), <= 7e-15 others
   smallest residual of the defective rule      3.9e-3 (FejerSecond n=255; 1.6e-2 at n=64, 2.0 at n=2)
@@ -36,12 +58,25 @@ VERIF_SEED is not used):
                                                factor sqrt(1-x^2) amplifies the rounding of x by
                                                1/(1-x^2); this is why the weight rtol is 1e-8)
   mutants (selftest) miss the thresholds by >= 5 orders of magnitude.
+CALIBRATION of the drawn parameters (gen/C01-audit/calib.py: EVERY pool value x every size of the
+thorough tier, not only the values a seed draws):
+  GaussLaguerre, alpha in the pool (<= 8)      largest residual 4.7e-13 (alpha = 8); squares 1.1e-13
+       alpha = 10 / 12 / 15 / 20 (NOT in the pool) 3.5e-12 / 3.7e-11 / 2.9e-9 / 3.2e-6: conditioning of the float
+                                               evaluation of the orthonormal family, no claim made
+  substitution rules, steps of the pool        node error / threshold <= 1.1e-4, weight <= 7e-6
+  strip maps, rho of the pool (21/20 .. 10)    node error / threshold <= 4.7e-4, weight <= 6.2e-5
+  OneDGrid.integrate vs the weighted sum       <= 3.2e-13 (threshold 1e-9); mutants of integrate >= 1e-3
+  call forms                                   all bit-identical to the reference on the pinned tree, except
+                                               TanhSinh with an unsigned n (known finding, known_findings.d/C01.json)
 """
 from __future__ import annotations
 
+import inspect
 import json
 import math
 import multiprocessing as mp_
+import os
+import random
 import warnings
 from fractions import Fraction
 
@@ -58,6 +93,10 @@ W_RTOL = 1e-8
 NODE_ATOL = 1e-12
 DOMAIN_SLACK = 1e-12
 EPS = 2.220446049250313e-16
+WORKERS = 8
+# values drawn from the pools of spec/MC_OneD.tla per tier: (alpha, step, rho, n)
+SEED_COUNTS = {"quick": {"alpha": 1, "step": 1, "rho": 1, "n": 1},
+               "thorough": {"alpha": 3, "step": 2, "rho": 2, "n": 1}}
 
 mpm = expr_eval.mp
 
@@ -108,6 +147,106 @@ def _build(rule, n, par, base):
         if rule == "TrefethenStripGeneral":
             return cls(n, getattr(og, base), rho=float(p))
         return cls(n)
+
+
+def _signames(cls):
+    """Parameter names of the constructor after self, and the declared defaults."""
+    sig = inspect.signature(cls.__init__)
+    ps = list(sig.parameters.values())[1:]
+    return [p.name for p in ps], {p.name: p.default for p in ps if p.default is not inspect.Parameter.empty}
+
+
+def _rat_of_default(v):
+    """Declared default as a small rational [p, q]; [0, 0] if it is none."""
+    try:
+        f = Fraction(v).limit_denominator(10 ** 4)
+        if float(f) == float(v) and abs(f.numerator) < 10 ** 6:
+            return [f.numerator, f.denominator]
+    except Exception:
+        pass
+    return [0, 0]
+
+
+def _signature_record():
+    """What the library itself declares: all OneDGrid subclasses of grid.onedgrid and the default
+    of the optional (last) parameter of every constructor."""
+    import grid.onedgrid as og
+    from grid.basegrid import OneDGrid
+    classes, defaults = [], {}
+    for name, cls in sorted(vars(og).items()):
+        if inspect.isclass(cls) and issubclass(cls, OneDGrid) and cls is not OneDGrid and cls.__module__ == og.__name__:
+            classes.append(name)
+    for name in classes:
+        try:
+            names, dfl = _signames(getattr(og, name))
+            defaults[name] = _rat_of_default(dfl[names[-1]]) if names and names[-1] in dfl else [0, 0]
+        except Exception:
+            defaults[name] = [0, 0]
+    return {"classes": classes, "defaults": defaults}
+
+
+_NTYPE = {"int": int, "int64": np.int64, "int32": np.int32, "uint64": np.uint64}
+
+
+def _par_value(entry, par, how):
+    f = _frac(par)
+    base = int(f) if entry["parkind"] == "d" else float(f)
+    if how == "same":
+        return base
+    if how == "int":
+        return int(f)
+    if how == "int64":
+        return np.int64(int(f))
+    if how == "float64":
+        return np.float64(float(f))
+    if how == "array0d":
+        return np.array(base)
+    raise tlc.MachineryError(f"unknown parameter spelling {how}")
+
+
+def _form_applies(form, entry, c, default):
+    """Mirror of FormApplies of OneD.tla (the TLC audit recounts the forms per case)."""
+    w = form["when"]
+    if w == "always":
+        return True
+    if w == "par":
+        return entry["parkind"] != "none"
+    if w == "integral":
+        return entry["parkind"] in ("alpha", "step", "rho") and int(c["par"][1]) == 1
+    if w == "default":
+        return entry["parkind"] != "none" and [int(c["par"][0]), int(c["par"][1])] == list(default)
+    raise tlc.MachineryError(f"unknown form condition {w}")
+
+
+def _build_form(entry, c, form):
+    """Construct the rule of case c in the spelling ``form`` (names taken from the signature)."""
+    import grid.onedgrid as og
+    rule, n, par, base = c["rule"], c["n"], c["par"], c["base"]
+    cls = getattr(og, rule)
+    names, _dfl = _signames(cls)
+    takes_base = rule in ("TrefethenGeneral", "TrefethenStripGeneral")
+    has_par = entry["parkind"] != "none"
+    nval = _NTYPE[form["n"]](n)
+    args, kwargs = [], {}
+    style = form["style"]
+    if style == "kw":
+        kwargs[names[0]] = nval
+    else:
+        args.append(nval)
+    if takes_base:
+        if style == "kw":
+            kwargs[names[1]] = getattr(og, base)
+        else:
+            args.append(getattr(og, base))
+    if has_par and form["par"] != "omit":
+        pv = _par_value(entry, par, form["par"])
+        if style == "pos":
+            args.append(pv)
+        else:
+            kwargs[names[-1]] = pv
+    with warnings.catch_warnings():
+        warnings.simplefilter("ignore")
+        return cls(*args, **kwargs)
 
 
 class _Defs:
@@ -249,24 +388,58 @@ def _expected_vector(f, kmax):
 # ---------------------------------------------------------------------------------------------
 # one case
 
-def _check_case(defs, entry, c):
-    """Returns (obs record for the audit, list of (clause, message, detail), stats)."""
+def _integrate_obligations(g, F, Wv, direct, nsq, what):
+    """The obligations once more, through OneDGrid.integrate (OneD.tla section 7b).
+    F: (m, n) rows of test functions at the nodes, Wv: (n,) weight function at the nodes,
+    direct: (m,) the weighted sums sum_i w_i W(x_i) F[k, i] already judged against the exact
+    values by the exactness clause - integrate must return these numbers in both spellings;
+    nsq: number of rows whose square is an obligation of its own (expected 1).
+    Returns (number of obligations, largest residual, failure or None)."""
+    m = F.shape[0]
+    total = 2 * m + nsq
+    worst = (0.0, None)
+    try:
+        with np.errstate(all="ignore"):
+            for k in range(m):
+                f = np.ascontiguousarray(F[k], dtype=float)
+                for form, val in (("product", g.integrate(f * Wv)), ("factors", g.integrate(f, Wv))):
+                    err = abs(float(val) - float(direct[k]))
+                    if not err <= worst[0]:
+                        worst = (err if err == err else math.inf, (form, k, float(val), float(direct[k])))
+            for k in range(nsq):
+                f = np.ascontiguousarray(F[k], dtype=float)
+                val = g.integrate(f, f, Wv)
+                err = abs(float(val) - 1.0)
+                if not err <= worst[0]:
+                    worst = (err if err == err else math.inf, ("square", k, float(val), 1.0))
+    except Exception as e:
+        return total, math.inf, ("integrate", f"{what}: OneDGrid.integrate raised {type(e).__name__}: {e}", None)
+    if not worst[0] <= EXACT_ATOL:
+        form, k, gv, ev = worst[1]
+        ref = "norm of the orthonormal test function" if form == "square" else "sum_i w_i f(x_i)"
+        return total, worst[0], ("integrate", f"{what} number {k} through OneDGrid.integrate (form '{form}'): {gv!r}, "
+                                 f"{ref} = {ev!r}, error {worst[0]:.3e} > {EXACT_ATOL}",
+                                 {"form": form, "k": k, "observed": gv, "expected": ev})
+    return total, worst[0], None
+
+
+def _judge_grid(defs, entry, c, g):
+    """Judge one constructed grid against the case: (obs record, failures, stats, (x, w, dom))."""
     em = defs.em
     rule, n, par, base = c["rule"], c["n"], c["par"], c["base"]
-    obs = {"n": n, "par": [int(par[0]), int(par[1])], "base": base, "built": False, "size": -1,
-           "asc": False, "dom": False, "nobl": 0, "ndef": 0}
+    obs = {"n": n, "par": [int(par[0]), int(par[1])], "base": base, "built": True, "size": -1,
+           "asc": False, "dom": False, "nobl": 0, "ndef": 0, "nint": 0, "nform": 0}
     fails = []
-    stats = {"exact_max": 0.0, "node_ratio": 0.0, "weight_ratio": 0.0}
+    stats = {"exact_max": 0.0, "node_ratio": 0.0, "weight_ratio": 0.0, "int_max": 0.0}
     try:
-        g = _build(rule, n, par, base)
-        x = np.asarray(g.points, dtype=float)
-        w = np.asarray(g.weights, dtype=float)
+        x = np.array(g.points, dtype=float)      # copies: the caller may overwrite the grid's arrays later
+        w = np.array(g.weights, dtype=float)
         dom = g.domain
         size = int(g.size)
-    except Exception as e:  # an admissible request must be built
-        fails.append(("construct", f"constructor raised {type(e).__name__}: {e}", None))
-        return obs, fails, stats
-    obs["built"] = True
+    except Exception as e:
+        fails.append(("construct", f"points / weights / domain / size not readable: {type(e).__name__}: {e}", None))
+        obs["built"] = False
+        return obs, fails, stats, None
     # ---- size -------------------------------------------------------------------------------
     ok_size = x.ndim == 1 and w.ndim == 1 and len(x) == n and len(w) == n and size == n
     obs["size"] = n if ok_size else (len(x) if len(x) != n else (len(w) if len(w) != n else size))
@@ -274,7 +447,7 @@ def _check_case(defs, entry, c):
         if ok_size:  # reported here; nothing further can be judged on such arrays
             fails.append(("finite", "points or weights contain nan/inf", None))
             obs["built"] = False
-        return obs, fails, stats
+        return obs, fails, stats, (x, w, dom)
     # ---- definition ------------------------------------------------------------------------------
     kind = entry["kind"]
     d = None
@@ -285,7 +458,7 @@ def _check_case(defs, entry, c):
             bg = _build(base, n, [0, 1], "")
         except Exception as e:
             fails.append(("construct", f"base rule {base}({n}) raised {type(e).__name__}: {e}", None))
-            return obs, fails, stats
+            return obs, fails, stats, (x, w, dom)
         d = defs.mapped_def(rule, n, par, base, bg)
     # ---- order and domain ---------------------------------------------------------------------
     dx = np.diff(x)
@@ -337,8 +510,10 @@ def _check_case(defs, entry, c):
             T = evaluate_np(s["test"], {"k": ks[:, None], "x": x[None, :]})
             got = T @ w
         worst = (0.0, None)
+        expv = np.zeros(n)
         for m in range(1, n + 1):
             exp = float(evaluate_x(s["expOdd"] if m % 2 else s["expEven"], {"k": m}, "mp"))
+            expv[m - 1] = exp
             err = abs(got[m - 1] - exp)
             obs["nobl"] += 1
             if not err <= worst[0]:
@@ -348,6 +523,10 @@ def _check_case(defs, entry, c):
             m, gv, ev = worst[1]
             fails.append(("exactness", f"sum_i w_i sin({m} pi (x_i+1)/2) = {gv!r}, exact integral {ev!r}, "
                           f"error {worst[0]:.3e} > {EXACT_ATOL}", {"m": m, "observed": gv, "expected": ev}))
+        obs["nint"], stats["int_max"], f_int = _integrate_obligations(
+            g, np.asarray(T, dtype=float), np.ones(n), got, 0, "sine test function (k = index + 1)")
+        if f_int is not None:
+            fails.append(f_int)
     elif fam != "none":
         f = _family(em, fam, par)
         deg = None
@@ -375,6 +554,89 @@ def _check_case(defs, entry, c):
                           f"({int(np.sum(bad))} of {deg + 1} degrees fail)",
                           {"degree": k, "observed": float(got[k]), "expected": float(exp[k]),
                            "failing_degrees": int(np.sum(bad))}))
+        with np.errstate(all="ignore"):
+            Wv = np.array(np.broadcast_to(np.asarray(W, dtype=float), x.shape))
+        nsq = (deg // 2 + 1) if f["normalise"] else 0
+        obs["nint"], stats["int_max"], f_int = _integrate_obligations(
+            g, P, Wv, got, nsq, f"family {fam}: degree")
+        if f_int is not None:
+            fails.append(f_int)
+    return obs, fails, stats, (x, w, dom)
+
+
+def _same_grid(ref, g):
+    """The grid g carries exactly the numbers of the reference (x, w, dom)."""
+    x0, w0, dom0 = ref
+    try:
+        x = np.asarray(g.points, dtype=float)
+        w = np.asarray(g.weights, dtype=float)
+        dom = g.domain
+        return (x.shape == x0.shape and w.shape == w0.shape and int(g.size) == len(x0)
+                and np.array_equal(x, x0) and np.array_equal(w, w0)
+                and (dom is None) == (dom0 is None)
+                and (dom is None or (len(dom) == 2 and float(dom[0]) == float(dom0[0]) and float(dom[1]) == float(dom0[1]))))
+    except Exception:
+        return False
+
+
+def _scribble(g):
+    """Overwrite the arrays a grid handed out, in place (what a careless caller may do)."""
+    for arr in (g.points, g.weights):
+        try:
+            arr[...] = -12345
+        except Exception:
+            pass      # read-only arrays protect themselves: nothing to overwrite
+
+
+def _check_case(defs, entry, c):
+    """Returns (obs record for the audit, list of (clause, message, detail), stats)."""
+    em = defs.em
+    rule, n, par, base = c["rule"], c["n"], c["par"], c["base"]
+    try:
+        g = _build(rule, n, par, base)
+    except Exception as e:  # an admissible request must be built
+        obs = {"n": n, "par": [int(par[0]), int(par[1])], "base": base, "built": False, "size": -1,
+               "asc": False, "dom": False, "nobl": 0, "ndef": 0, "nint": 0, "nform": 0}
+        return obs, [("construct", f"constructor raised {type(e).__name__}: {e}", None)], \
+            {"exact_max": 0.0, "node_ratio": 0.0, "weight_ratio": 0.0, "int_max": 0.0}
+    obs, fails, stats, ref = _judge_grid(defs, entry, c, g)
+    stats["forms_identical"] = 0
+    if not obs["built"] or obs["size"] != n or not em["formN_"].get(n, False):
+        return obs, fails, stats
+    # ---- call forms (OneD.tla section 7b) ---------------------------------------------------------
+    default = em["defaults_"].get(rule, [0, 0])
+    forms = [fm for fm in em["callForms"] if _form_applies(fm, entry, c, default)]
+    forms.sort(key=lambda fm: bool(fm["scribble"]))      # overwriting comes last
+    scribbled = False
+    for fm in forms:
+        obs["nform"] += 1
+        tag = f"call={fm['name']}"
+        if fm["scribble"] and not scribbled:
+            _scribble(g)
+            scribbled = True
+        try:
+            g2 = _build_form(entry, c, fm)
+        except Exception as e:
+            fails.append((f"{tag}:construct", f"the same request in the form '{fm['name']}' raised "
+                          f"{type(e).__name__}: {e}", {"form": fm}))
+            continue
+        if _same_grid(ref, g2):
+            stats["forms_identical"] += 1
+            continue
+        # not bit-identical: the form is judged on its own, like a case
+        o2, f2, _s2, _r2 = _judge_grid(defs, entry, c, g2)
+        if o2["size"] != n:
+            f2.append(("size", f"{o2['size']} points/weights instead of n = {n}", None))
+        elif o2["built"]:
+            if not o2["asc"]:
+                f2.append(("order", "nodes are not in ascending order", None))
+            if not o2["dom"]:
+                f2.append(("domain", "a node lies outside the declared domain or .domain differs from it", None))
+        for clause, msg, detail in f2:
+            fails.append((f"{tag}:{clause}", f"the same request in the form '{fm['name']}' "
+                          f"(n as {fm['n']}, arguments {fm['style']}, parameter {fm['par']}"
+                          f"{', after the arrays of the first result were overwritten' if fm['scribble'] else ''}): {msg}",
+                          {"form": fm, "detail": detail}))
     return obs, fails, stats
 
 
@@ -456,10 +718,37 @@ def _cfg_text(tier, invariants, outfile):
     return "\n".join(lines) + "\n" + "".join(f"INVARIANT {i}\n" for i in invariants)
 
 
+def _write_inputs(wd, tier, seed, sig=None):
+    """Files the specification reads: the draws of VERIF_SEED (module OneDSeed: start index and
+    count per pool of MC_OneD.tla) and what the library's own signatures declare (oned_sig.json)."""
+    wd.mkdir(parents=True, exist_ok=True)
+    rng = random.Random(f"C01/{int(seed)}")
+    draw = {k: [rng.randrange(10 ** 6), cnt] for k, cnt in sorted(SEED_COUNTS[tier].items())}
+    (wd / "_draws").mkdir(exist_ok=True)
+    (wd / "_draws" / "OneDSeed.tla").write_text(
+        "------------------------------ MODULE OneDSeed ------------------------------\n"
+        f"\\* generated by vf/props/c01.py: draws of VERIF_SEED={int(seed)}, tier {tier}\n"
+        + "".join(f"Seed{k.capitalize()} == <<{v[0]}, {v[1]}>>\n" for k, v in sorted(draw.items()))
+        + "=============================================================================\n")
+    with open(wd / "oned_seed.json", "w") as f:      # for the record (evidence); TLC reads the module
+        json.dump(draw, f)
+    if sig is None:
+        sig = _signature_record()
+    with open(wd / "oned_sig.json", "w") as f:
+        json.dump(sig, f)
+    return sig
+
+
+def _tlc(module, cfg, wd, **kw):
+    """run_tlc with the generated module OneDSeed of this run (copied over the default of spec/)."""
+    return tlc.run_tlc(module, cfg, wd, extra_modules=(wd / "_draws" / "OneDSeed.tla",), **kw)
+
+
 def _run_model(rep, wd, tier, patch=None):
     """TLC on the model; returns the emitted data."""
     cfgname = f"MC_OneD_{tier}.cfg"
-    res = tlc.run_tlc("MC_OneD", cfgname, wd, workers=16, timeout=1500).require_ok(cfgname)
+    _write_inputs(wd, tier, rep.seed)
+    res = _tlc("MC_OneD", cfgname, wd, workers=WORKERS, timeout=1500).require_ok(cfgname)
     rep.tlc(res, f"MC_OneD_{tier}")
     if res.status == "violation":
         st = tlc.last_state(res)
@@ -469,7 +758,7 @@ def _run_model(rep, wd, tier, patch=None):
     # non-vacuity: the negated witnesses must be violated
     for wit in ("WitnessNoSeriesCase", "WitnessNoOddF1"):
         (wd / f"W_{wit}.cfg").write_text(_cfg_text(tier, [wit], "oned_witness.json"))
-        r = tlc.run_tlc("MC_OneD", wd / f"W_{wit}.cfg", wd, workers=4, timeout=600).require_ok(wit)
+        r = _tlc("MC_OneD", wd / f"W_{wit}.cfg", wd, workers=4, timeout=900).require_ok(wit)
         if r.status != "violation":
             raise tlc.MachineryError(f"vacuity guard: witness {wit} was not reached")
     path = wd / "oned_emitted.json"
@@ -498,12 +787,15 @@ def _run(tier, rep, wd, em=None, corrupt=None) -> int:
         rep.count("transitions", 1)
     _EM = em
     entries = {r["rule"]: r for r in em["rules"]}
+    sig = _write_inputs(wd, tier, rep.seed)      # the audit reads the same draws and the signatures observed NOW
+    em["formN_"] = {int(a["n"]): bool(a["forms"]) for a in em["formN"]}
+    em["defaults_"] = sig["defaults"]
     ns = sorted({c["n"] for r in em["rules"] for c in r["cases"]}, reverse=True)
     obs_all = {r["rule"]: [None] * len(r["cases"]) for r in em["rules"]}
     stats_by_rule = {}
-    with mp_.get_context("fork").Pool(min(16, len(ns))) as pool:
+    with mp_.get_context("fork").Pool(min(WORKERS, len(ns))) as pool:
         results = pool.map(_worker, ns, chunksize=1)
-    ncases = 0
+    ncases = nforms = nint = 0
     for status, payload in results:
         if status != "OK":
             raise tlc.MachineryError(f"harness failure in C01 worker: {payload}")
@@ -512,13 +804,19 @@ def _run(tier, rep, wd, em=None, corrupt=None) -> int:
             c = entry["cases"][qi]
             obs_all[rule][qi] = obs
             ncases += 1
-            rep.evaluated(1 + obs["nobl"] + obs["ndef"], (rule, c["n"], tuple(c["par"]), c["base"]))
-            st = stats_by_rule.setdefault(rule, {"exact_max": 0.0, "node_ratio": 0.0, "weight_ratio": 0.0, "cases": 0})
+            rep.evaluated(1 + obs["nobl"] + obs["ndef"] + obs["nint"] + obs["nform"],
+                          (rule, c["n"], tuple(c["par"]), c["base"]))
+            st = stats_by_rule.setdefault(rule, {"exact_max": 0.0, "node_ratio": 0.0, "weight_ratio": 0.0,
+                                                 "int_max": 0.0, "cases": 0, "forms": 0, "forms_identical": 0})
             st["cases"] += 1
+            st["forms"] += obs["nform"]
+            st["forms_identical"] += stats.get("forms_identical", 0)
+            nforms += obs["nform"]
+            nint += obs["nint"]
             failed = {f[0] for f in fails}
-            for k in ("exact_max", "node_ratio", "weight_ratio"):
+            for k in ("exact_max", "node_ratio", "weight_ratio", "int_max"):
                 skip = (k == "exact_max" and "exactness" in failed) or (k == "node_ratio" and "nodes" in failed) \
-                    or (k == "weight_ratio" and "weights" in failed)
+                    or (k == "weight_ratio" and "weights" in failed) or (k == "int_max" and "integrate" in failed)
                 if not skip:
                     st[k] = max(st[k], stats[k])
             key0 = _case_key(entry, c)
@@ -533,12 +831,20 @@ def _run(tier, rep, wd, em=None, corrupt=None) -> int:
         corrupt(obs_all)
     with open(wd / "oned_obs.json", "w") as f:
         json.dump(obs_all, f)
-    (wd / "Audit.cfg").write_text(_cfg_text(tier, ["AuditOK", "AuditComplete"], "oned_audit.json"))
-    res = tlc.run_tlc("OneDAudit", wd / "Audit.cfg", wd, workers=16, timeout=900).require_ok("OneDAudit")
+    (wd / "Audit.cfg").write_text(_cfg_text(tier, ["AuditOK", "AuditComplete", "AuditCatalogue", "AuditDefaults"],
+                                            "oned_audit.json"))
+    res = _tlc("OneDAudit", wd / "Audit.cfg", wd, workers=WORKERS, timeout=900).require_ok("OneDAudit")
     rep.tlc(res, "OneDAudit")
     if res.status == "violation":
         rep.violation(f"audit:{','.join(res.violated)}", f"TLC: audit invariant(s) {res.violated} violated: the harness did "
                       f"not discharge every emitted case; {tlc.last_state(res)}")
+    for t in tlc.tagged(res.stdout, "UNCATALOGUED"):
+        rep.violation(f"catalogue:{t[1]}", f"grid.onedgrid defines the rule class {t[1]} which is not in the catalogue of "
+                      f"OneD.tla: 'every rule' cannot be judged for it", {"clause": "catalogue", "class": t[1], "tier": tier})
+    for t in tlc.tagged(res.stdout, "BADDEFAULT"):
+        rep.violation(f"{t[1]}:default", f"{t[1]}: the default {t[2]} declared for the optional parameter is not an "
+                      f"admissible value of it (or not a plain number): the request without the optional argument "
+                      f"is not a rule of the catalogue", {"clause": "default", "rule": t[1], "default": t[2], "tier": tier})
     for t in tlc.tagged(res.stdout, "MISMATCH"):
         _, c, o, expd = t
         entry = entries[c["rule"]]
@@ -556,6 +862,13 @@ def _run(tier, rep, wd, em=None, corrupt=None) -> int:
         else:
             raise tlc.MachineryError(f"audit mismatch not explained by an observable: {t}")
     rep.set("cases_replayed", ncases)
+    rep.set("call_forms_replayed", nforms)
+    rep.set("obligations_through_integrate", nint)
+    rep.set("seed_draws", json.load(open(wd / "oned_seed.json")))
+    rep.set("sizes", sorted(ns))
+    rep.set("parameters", {r["rule"]: sorted({str(_frac(c["par"])) for c in r["cases"]}, key=lambda t: float(Fraction(t)))
+                           for r in em["rules"] if r["parkind"] != "none" and r["rule"] in
+                           ("GaussLaguerre", "TanhSinh", "TrefethenCC", "TrefethenStripCC")})
     rep.set("traces_validated_against_impl", ncases)
     rep.set("exhaustive", True)
     rep.set("per_rule", {r: {k: (float(f"{v:.3g}") if isinstance(v, float) else v) for k, v in s.items()}
@@ -563,7 +876,8 @@ def _run(tier, rep, wd, em=None, corrupt=None) -> int:
     rep.set("tolerances", {"exactness_abs": EXACT_ATOL, "node": f"max({RTOL}|x|, {NODE_ATOL})",
                            "weight": f"max({W_RTOL}|w|, 64 eps mag)"})
     rep.set("rule", "one case = one (rule class, n, parameter, base rule) emitted by OneD.tla, built with the real "
-                    "constructor; evaluations = cases + exactness obligations + node/weight values compared")
+                    "constructor; evaluations = cases + exactness obligations + node/weight values compared + "
+                    "obligations discharged through OneDGrid.integrate + call forms replayed")
     rep.assume("discrete cosine sums DSum on the three Chebyshev node families (textbook lemma; cross-checked "
                "numerically for every n of the tier)")
     rep.assume("moments of the weight functions (Beta/Gamma integrals) used by FamiliesOrthogonal")
@@ -580,10 +894,17 @@ def replay(path: str) -> int:
     if not c.get("rule"):
         print("replay: model-level violation; rerun ./check C01")
         return run("quick")
+    if c.get("clause") in ("catalogue", "default"):
+        print("replay: violation found by the TLC audit of the signatures; rerun ./check C01")
+        return run(c.get("tier") or "quick")
     tier = c.get("tier") or v.get("tier") or "quick"
+    if "seed" in v:      # the cases of a tier depend on the draws of the seed
+        os.environ["VERIF_SEED"] = str(v["seed"])
     wd = tlc.scratch(f"{PROP}-replay")
     rep = Report(PROP, tier, "model_checking")
     em = _run_model(rep, wd, tier)
+    em["formN_"] = {int(a["n"]): bool(a["forms"]) for a in em["formN"]}
+    em["defaults_"] = _signature_record()["defaults"]
     _EM = em
     entry = {r["rule"]: r for r in em["rules"]}[c["rule"]]
     case = {"rule": c["rule"], "n": c["n"], "par": c["par"], "base": c["base"]}
@@ -643,6 +964,80 @@ MUTANTS = [
     ("Lobatto-weight-scale pi/n instead of pi/(n-1)",
      "weights = np.pi * np.sqrt(1 - np.power(points, 2)) / (npoints - 1)", "weights = np.pi * np.sqrt(1 - np.power(points, 2)) / npoints",
      "GaussChebyshevLobatto:"),
+    # ---- dimensions added by the audit of the check (n = 1, call forms, state, drawn parameters and sizes) ----
+    ("GaussChebyshevType2 rejects its smallest admissible size n = 1",
+     "        if npoints < 1:\n            raise ValueError(f\"Argument npoints must be an integer > 1, given {npoints}\")\n"
+     "        # compute points and weights for Gauss-Chebyshev quadrature (Type 2)",
+     "        if npoints <= 1:\n            raise ValueError(f\"Argument npoints must be an integer > 1, given {npoints}\")\n"
+     "        # compute points and weights for Gauss-Chebyshev quadrature (Type 2)",
+     "GaussChebyshevType2:n=1:construct"),
+    ("SingleTanh rejects n = 1",
+     "        if npoints < 1:\n            raise ValueError(f\"npoints must be bigger than 1, given {npoints}\")\n"
+     "        if npoints % 2 == 0:\n            raise ValueError(f\"npoints must be odd, given {npoints}\")\n"
+     "        m = int((npoints - 1) / 2)\n        k = np.arange(-m, m + 1)\n        points = np.tanh(k * h)",
+     "        if npoints <= 1:\n            raise ValueError(f\"npoints must be bigger than 1, given {npoints}\")\n"
+     "        if npoints % 2 == 0:\n            raise ValueError(f\"npoints must be odd, given {npoints}\")\n"
+     "        m = int((npoints - 1) / 2)\n        k = np.arange(-m, m + 1)\n        points = np.tanh(k * h)",
+     "SingleTanh:n=1:"),
+    ("GaussLaguerre: weight division skipped when alpha is left at its default (explicit alpha = 0.0 correct)",
+     "        weights *= np.exp(points) * np.power(points, -alpha)",
+     "        weights *= (np.exp(points) * np.power(points, -alpha)) if alpha is not GaussLaguerre.__init__.__defaults__[0] else 1.0",
+     "call=omitted"),
+    ("MidPoint: type validation that only lets Python ints through (NumPy integers rejected)",
+     "        if npoints <= 1:\n            raise ValueError(f\"Argument npoints must be an integer > 1, given {npoints}\")\n\n"
+     "        points = -1 + (2 * np.arange(npoints) + 1) / npoints",
+     "        if not isinstance(npoints, int) or npoints <= 1:\n            raise ValueError(f\"Argument npoints must be an integer > 1, given {npoints}\")\n\n"
+     "        points = -1 + (2 * np.arange(npoints) + 1) / npoints",
+     "MidPoint:n=2:call=n-int64:construct"),
+    ("SingleExp: weights allocated with the dtype of h (integer h breaks the in-place product)",
+     "        points = np.exp(k * h)\n        weights = h * np.exp(k * h)\n        super().__init__(points, weights, (0, np.inf))",
+     "        points = np.exp(k * h)\n        weights = np.full(npoints, h)\n        weights *= np.exp(k * h)\n"
+     "        super().__init__(points, weights, (0, np.inf))",
+     "call=par-int"),
+    ("ClenshawCurtis: nodes memoised per npoints and handed out without a copy (state survives the call)",
+     "        theta = theta[::-1]\n        points = np.cos(theta)\n\n        jmed = (npoints - 1) // 2",
+     "        theta = theta[::-1]\n        points = globals().setdefault(\"_CC_NODES\", {}).setdefault(npoints, np.cos(theta))\n\n"
+     "        jmed = (npoints - 1) // 2",
+     "ClenshawCurtis:n=2:call=again"),
+    ("a new rule class the specification does not know",
+     "        weights = h * np.exp(k * h) / np.sqrt(np.exp(2 * h * k) + 1)\n        super().__init__(points, weights, (0, np.inf))\n",
+     "        weights = h * np.exp(k * h) / np.sqrt(np.exp(2 * h * k) + 1)\n        super().__init__(points, weights, (0, np.inf))\n"
+     "\n\nclass BooleRule(OneDGrid):\n    def __init__(self, npoints: int):\n"
+     "        super().__init__(np.linspace(-1, 1, npoints), np.full(npoints, 2.0 / npoints), (-1, 1))\n",
+     "catalogue:BooleRule"),
+    ("TrefethenStripCC: default rho = 1.0 (not an admissible rho: the call without rho is no rule)",
+     "    def __init__(self, npoints: int, rho: float = 1.1):\n        r\"\"\"Generate grid on :math:`[-1,1]` interval based on Trefethen-Clenshaw-Curtis.",
+     "    def __init__(self, npoints: int, rho: float = 1.0):\n        r\"\"\"Generate grid on :math:`[-1,1]` interval based on Trefethen-Clenshaw-Curtis.",
+     "TrefethenStripCC:default"),
+    ("GaussLaguerre: wrong power of x for every alpha outside the fixed lattice (only the drawn alpha sees it)",
+     "        weights *= np.exp(points) * np.power(points, -alpha)",
+     "        weights *= np.exp(points) * np.power(points, -(alpha if alpha in (-0.5, 0, 1 / 3, 0.5, 1, 2.5) else alpha + 0.05))",
+     "GaussLaguerre:"),
+    ("FejerFirst: series capped at 5 terms (sizes up to 12 unaffected; only the drawn size sees it)",
+     "        nsum = npoints // 2\n        j = np.arange(nsum) + 1\n\n        bj = 2.0 * np.ones(nsum) / (4 * j**2 - 1)",
+     "        nsum = min(npoints // 2, 5)\n        j = np.arange(nsum) + 1\n\n        bj = 2.0 * np.ones(nsum) / (4 * j**2 - 1)",
+     "FejerFirst:"),
+]
+
+
+def _integrate_first_only(self, *value_arrays):
+    return np.einsum("i,i", self.weights, value_arrays[0])
+
+
+def _integrate_dedup(self, *value_arrays):
+    arrs = list({id(a): a for a in value_arrays}.values())
+    return np.einsum("i" + ",i" * len(arrs), self.weights, *arrs)
+
+
+def _integrate_drop_last(self, *value_arrays):
+    return np.einsum("i" + ",i" * len(value_arrays), self.weights[:-1], *(a[:-1] for a in value_arrays))
+
+
+# (name, replacement of grid.basegrid.Grid.integrate, clause expected among the violation keys)
+INTEGRATE_MUTANTS = [
+    ("Grid.integrate: only the first value array is used", _integrate_first_only, ":integrate"),
+    ("Grid.integrate: repeated value arrays are de-duplicated (f, f, W -> f, W)", _integrate_dedup, ":integrate"),
+    ("Grid.integrate: last grid point left out", _integrate_drop_last, ":integrate"),
 ]
 
 
@@ -680,8 +1075,9 @@ def selftest(tier: str) -> int:
     base_clean = not keys
     print(f"selftest baseline: unlisted violations = {keys}")
     killed = 0
+    names_before = set(og.__dict__)
     for name, old, new, expect in MUTANTS:
-        if old not in src:
+        if old not in src or src.count(old) != 1:
             print(f"selftest MUTANT-NOT-APPLICABLE {name}")
             results.append((name, False))
             continue
@@ -690,9 +1086,20 @@ def selftest(tier: str) -> int:
             ok, keys = one(name, expect)
         finally:
             exec(compile(src, og.__file__, "exec"), og.__dict__)
+            for extra in set(og.__dict__) - names_before:      # classes / caches a mutant added
+                del og.__dict__[extra]
         killed += ok
         results.append((name, ok))
-        print(f"selftest mutant {'KILLED ' if ok else 'MISSED '} {name}: {len(keys)} violation key(s), e.g. {keys[:3]}")
+        hit = [k for k in keys if expect in k]
+        print(f"selftest mutant {'KILLED ' if ok else 'MISSED '} {name}: {len(keys)} violation key(s), e.g. {(hit or keys)[:3]}")
+    import grid.basegrid as bg
+    for name, fn, expect in INTEGRATE_MUTANTS:
+        with evidence.patched(bg.Grid, "integrate", fn):
+            ok, keys = one(name, expect)
+        killed += ok
+        results.append((name, ok))
+        hit = [k for k in keys if expect in k]
+        print(f"selftest mutant {'KILLED ' if ok else 'MISSED '} {name}: {len(keys)} violation key(s), e.g. {(hit or keys)[:3]}")
 
     def c_size(o):
         o["ClenshawCurtis"][3]["size"] += 1
@@ -702,9 +1109,17 @@ def selftest(tier: str) -> int:
 
     def c_obl(o):
         o["GaussLaguerre"][0]["nobl"] -= 1
+
+    def c_int(o):
+        o["GaussLegendre"][1]["nint"] -= 1
+
+    def c_form(o):
+        o["TanhSinh"][0]["nform"] -= 1
     for name, fn, expect in (("record: size of one case altered", c_size, ":size"),
                              ("record: one case missing", c_drop, "audit:"),
-                             ("record: one obligation not discharged", c_obl, "audit-mismatch")):
+                             ("record: one obligation not discharged", c_obl, "audit-mismatch"),
+                             ("record: one obligation not passed through integrate", c_int, "audit-mismatch"),
+                             ("record: one call form not replayed", c_form, "audit-mismatch")):
         try:
             ok, keys = one(name, expect, corrupt=fn)
         except tlc.MachineryError as e:  # a missing record makes TLC fail to evaluate the audit: rejected as well
@@ -714,7 +1129,7 @@ def selftest(tier: str) -> int:
         print(f"selftest corruption {'REJECTED' if ok else 'ACCEPTED'} {name}: {keys[:3]}")
     for inv in ("ShippedFejer2Exact", "ShippedFejer1Exact"):
         (wd0 / f"S_{inv}.cfg").write_text(_cfg_text(tier, [inv], "oned_shipped.json"))
-        r = tlc.run_tlc("MC_OneD", wd0 / f"S_{inv}.cfg", wd0, workers=4, timeout=600).require_ok(inv)
+        r = _tlc("MC_OneD", wd0 / f"S_{inv}.cfg", wd0, workers=4, timeout=600).require_ok(inv)
         ok = r.status == "violation"
         killed += ok
         results.append((f"spec variant {inv}", ok))
